@@ -176,6 +176,8 @@ pub enum Step {
     EmitS { kind: SK, mode: u8, target: usize, refslot: usize },
     EmitC { client: usize, kind: CK, refslot: usize },
     ServerFrame { tick: bool },
+    /// `n` server frames without a tick (time passes: acknowledgement timeouts can fire while acks are still in flight)
+    IdleFrames { n: u8 },
     /// a tick frame that advances the server tick by `by` (manual policy; gaps around the 64-tick window)
     TickJump { by: u8 },
     /// everybody in sync, advance the server tick by about 2^30, touch every replicated entity so that every live tick is
